@@ -943,6 +943,10 @@ fn c11_extra(m: &ClientModel) -> Vec<Ev> {
             v.push(Ev::ReplyStale(back));
         }
     }
+    if matches!(m.phase, Phase::InFlight { .. }) && m.partial_rest.is_none() {
+        // exactly the MBAP header of the reply and nothing of its body (the enabled set has 9 bytes)
+        v.push(Ev::ReplyPartial(7));
+    }
     v
 }
 
